@@ -65,7 +65,8 @@ struct Graph {
         for (size_t i = 0; i < n; i++) switch (t) {
             case nix::DataType::Bool: v.emplace_back(r.chance(0.5)); break; case nix::DataType::Int32: v.emplace_back((int32_t)r.next()); break; case nix::DataType::UInt32: v.emplace_back((uint32_t)r.next()); break;
             case nix::DataType::Int64: v.emplace_back((int64_t)r.next()); break; case nix::DataType::UInt64: v.emplace_back((uint64_t)r.next()); break;
-            case nix::DataType::Double: v.emplace_back(r.chance(0.1) ? -0.0 : (r.real() - 0.5) * std::ldexp(1.0, (int)r.range(-20, 60))); break;
+            case nix::DataType::Double: { int q = (int)r.u(10);   // wide binary range, or everyday magnitudes with non-terminating binary fractions (thirds, tenths) that any lossy storage would round
+                v.emplace_back(q == 0 ? -0.0 : q <= 4 ? (double)r.range(-3000, 3000) / (r.chance(0.5) ? 3.0 : 10.0) : (r.real() - 0.5) * std::ldexp(1.0, (int)r.range(-20, 60))); break; }
             default: v.emplace_back(std::string(r.chance(0.2) ? "" : "s" + str(r.u(1000)) + (r.chance(0.2) ? "\xc3\xa4" : ""))); break;
         }
         return v;
